@@ -250,5 +250,12 @@ def run(chk):
                     for k in unknowns:
                         if (k, 'nn_params') not in occ:
                             raise Inconclusive(f"term {t} does not mention network {k}")
+                # the dynamic term of a system is routed by its own keys, whose default selects the network parameters only
+                occ = occurrences(scalar_of(out['dyn_loss'], 'dyn_loss'))
+                for g, flags in occ.items():
+                    if g in GROUPS and flags != {g != 'nn_params'}:
+                        raise Violation(f"dyn_loss/{g}", f"occurrences of {g} in the system dynamic term have stop_gradient marks {sorted(flags)}",
+                                        "default: network parameters selected, equation parameters not")
+                    n += 1
                 return f"{n} (unknown, term, group) occurrences routed as specified"
             chk.run("C06.R5", SSITE[eq_type] + ".__post_init__/evaluate", cfg, go, construct=f"system routing[{eq_type}]")
